@@ -306,10 +306,15 @@ def judge_pair(ck, ref_files, var_files, vkind, extra=None, do_shrink=True):
     ref_files = [list(x) for x in ref_files]
     var_files = [list(x) for x in var_files]
     a = outcome(ref_files)
-    if a[0] != 'ok':
-        ck.stat('layout.reference_not_compilable')
-        return True
     b = outcome(var_files)
+    if a[0] != 'ok':
+        if b[0] != 'ok':
+            ck.stat('layout.neither_layout_compiles')
+            return True
+        # acceptance depends on the layout, the other way round: judge with the roles exchanged
+        ck.stat('layout.reference_rejected_variant_accepted')
+        ref_files, var_files, a, b = var_files, ref_files, b, a
+        vkind = vkind + '-reversed'
     if FAST[0]:
         ck.case(('layout', vkind, tuple(t for _p, t in var_files)))
         ck.stat('layout.variant.%s' % vkind)
@@ -548,6 +553,9 @@ def judge_backends(ck, ref_files, var_files, vkind, backends, scratch, do_shrink
         if a == b:
             ck.agree('layout.bytes')
             continue
+        if a[0].startswith('spec-') or b[0].startswith('spec-'):
+            ck.stat('layout.bytes.variant_not_compilable')     # reported by judge_pair as an `accept` difference
+            continue
         sigs_equal = outcome(ref_files) == outcome(var_files)
         diff = first_byte_difference(a[1], b[1]) if a[0] == b[0] == 'ok' else '%s vs %s' % (a[:2], b[:2])
 
@@ -597,7 +605,7 @@ def suite_layout(ck, n_models, n_layouts, backends=None):
     quarter) also get the byte comparison"""
     from harness import specgen as sg
     scratch = core.scratch('stone-verif-c11-')
-    n_backend_models = max(2, n_models // ck.scale(7, 4))
+    n_backend_models = max(2, n_models // ck.scale(7, 10))
     # hand-written specs: every backend can run on them (route attributes style / auth / host present)
     for label, files in load_hand_specs():
         tv = text_variants(ck.rng, files, ck.scale(6, 18))
@@ -614,8 +622,13 @@ def suite_layout(ck, n_models, n_layouts, backends=None):
         profile = ('fe', 'default', 'fe', 'routes', 'small')[k % 5]
         m = sg.gen_model(ck.rng, profile)
         ref_files = sg.render(m, None)
-        if compile_files(ref_files)[0] != 'ok':
+        if outcome(ref_files)[0] != 'ok':
+            # the generator promises a legal model: either it is wrong, or acceptance depends on the layout - look for
+            # a layout of the same model that compiles
             ck.stat('layout.reference_not_compilable')
+            for kind, lay in layouts_of(ck.rng, sg, m, 6)[:12]:
+                if kind in ('file-perm', 'def-perm', 'resplit'):
+                    judge_pair(ck, ref_files, sg.render(m, lay), kind, {'profile': profile})
             continue
         ck.hist('layout.files_per_model', len(ref_files))
         variants = []
@@ -743,10 +756,15 @@ def run_cli(root, files, via_stdin):
 
 
 STDIN_SEEDS = [
+    # the substring `namespace` away from the start of a line (defect D14, repaired by commit de8ede2 of the repository:
+    # these must now come through unchanged)
     ('identifier', 'namespace a\nstruct S\n    namespace_id String\n'),
     ('doc', 'namespace a\n    "The namespace of things."\nstruct S\n    f String\n'),
     ('comment', 'namespace a\n# types of this namespace\nstruct S\n    f String\n'),
     ('route-name', 'namespace a\nroute get_namespace(Void, Void, Void)\n'),
+    ('preamble', '# a comment before the first namespace line\n\nnamespace a\nstruct S\n    f String\n'),
+    # a LINE that begins with the word, inside a multi-line documentation string: still cut (stdin_split_witness)
+    ('doc-line', 'namespace a\n    "Types of this\nnamespace and others."\nstruct S\n    f String\n'),
 ]
 
 
@@ -762,17 +780,23 @@ def judge_stdin(ck, root, files, label, trigger=None):
         ck.agree('layout.stdin')
         return True
     text = ''.join(t if t.endswith('\n') else t + '\n' for _p, t in files)
-    extra_kw = text.count('namespace') - len(files)
+    # lines that begin with the keyword beyond one namespace declaration per file
+    extra_kw = len(re.findall(r'(?m)^namespace\b', text)) - len(files)
     d = apisig.diff(a[1], b[1]) if b[0] == 'ok' else 'stdin run: exit %s %s' % (b[1], b[2][-160:])
     case = {'suite': 'layout', 'mode': 'stdin', 'reference': [list(x) for x in files], 'variant': [['-', text]],
-            'first_difference': d, 'extra_occurrences_of_namespace': extra_kw}
+            'first_difference': d, 'extra_lines_beginning_with_namespace': extra_kw,
+            'occurrences_of_substring_namespace': text.count('namespace')}
     if extra_kw > 0:
         ck.failing_input('C11: the same specification compiles from a file but not through standard input: stone.cli.main '
-                         'cuts stdin at every substring `namespace` (%s): %s' % (trigger or 'generated text', d),
+                         'starts a new spec at every line that begins with `namespace` (%s): %s' % (trigger or 'generated text', d),
+                         {'kind': 'stdin-split', 'trigger': 'line-begins-with-namespace'}, case)
+    elif text.count('namespace') > len(files):
+        ck.failing_input('C11: the same specification compiles from a file but not through standard input although no other '
+                         'line begins with `namespace` (%s): %s' % (trigger or 'generated text', d),
                          {'kind': 'stdin-split', 'trigger': 'substring-namespace'}, case)
     else:
         ck.failing_input('C11: stdin delivery changes the Api: %s' % d,
-                         {'kind': 'stdin', 'component': 'api', 'where': generalise(d)}, case)
+                         {'kind': 'stdin', 'component': 'api'}, case)
     ck.stat('layout.stdin.differences')
     return False
 
@@ -792,6 +816,77 @@ def suite_stdin(ck, n_models):
         judge_stdin(ck, root, files, 'reference')
         lay = sg.gen_layout(ck.rng, m)
         judge_stdin(ck, root, sg.render(m, lay), 'layout')
+
+
+class _Captured(Exception):
+    pass
+
+
+def real_stdin_specs(text):
+    """the (name, text) list stone.cli.main hands to specs_to_ir when `text` arrives on standard input"""
+    from stone import cli
+    got = []
+
+    def recorder(specs, **_kw):
+        got.extend(specs)
+        raise _Captured()
+    old_argv, old_stdin, old_fn = sys.argv, sys.stdin, cli.specs_to_ir
+    sys.argv = ['stone-verif', 'python_types', '/nonexistent-stone-verif-out']
+    sys.stdin = _Stdin(text.encode('utf-8'))
+    cli.specs_to_ir = recorder
+    try:
+        with contextlib.redirect_stderr(io.StringIO()), contextlib.redirect_stdout(io.StringIO()):
+            cli.main()
+    except _Captured:
+        pass
+    except SystemExit:
+        return None
+    finally:
+        sys.argv, sys.stdin, cli.specs_to_ir = old_argv, old_stdin, old_fn
+    return [[n, t] for n, t in got]
+
+
+def gen_stdin_text(rng):
+    pool = ['namespace a', 'namespace b', 'namespace', 'namespace_id String', '    namespace_id String', 'namespace-x',
+            'namespace\tq', 'namespace(', ' namespace c', '# namespace d', 'struct S', '    f String', '', '   ', 'namespaces',
+            'namespace9', 'Namespace a', 'x namespace a', '    "doc', 'namespace in a doc"', 'import a', 'namespace.x',
+            'namespace"', 'namespace#c', 'name', 'space', 'namespac', 'namespace a\rnamespace b']
+    n = rng.randrange(0, 9)
+    return '\n'.join(rng.choice(pool) for _ in range(n)) + rng.choice(['', '\n', '\n\n'])
+
+
+def suite_stdin_split(ck):
+    """correspondence of the stdin splitter model (Model/Stdin.lean, op fe.stdin) with the real stdin branch of
+    stone.cli.main (its specs_to_ir argument is captured)"""
+    texts = [t for _n, t in STDIN_SEEDS] + ['', 'namespace', 'namespace\n', 'x\nnamespace', 'namespace a\nnamespace b\n']
+    for _ in range(ck.scale(400, 5000)):
+        texts.append(gen_stdin_text(ck.rng))
+    try:
+        from harness import specgen as sg
+        for k in range(ck.scale(6, 40)):
+            m = sg.gen_model(ck.rng, 'fe')
+            files = sg.render(m, sg.gen_layout(ck.rng, m) if k % 2 else None)
+            texts.append(''.join(t if t.endswith('\n') else t + '\n' for _p, t in files))
+    except Exception as e:                        # noqa
+        ck.note('fe.stdin: spec generator unavailable: %s' % e)
+    # the model is about `stdin_text`, i.e. after TextIOWrapper's universal-newline translation (\r\n, \r -> \n)
+    replies = ck.driver([{'op': 'fe.stdin', 'text': t.replace('\r\n', '\n').replace('\r', '\n')} for t in texts])
+    for t, rep in zip(texts, replies):
+        real = real_stdin_specs(t)
+        ck.case(('fe.stdin', t), nontrivial=t.count('namespace') > 0)
+        if real is None or 'protocol_error' in rep:
+            ck.disagree('fe.stdin', {'text': t}, real, rep)
+            continue
+        model = [['stdin.%d' % k, x] for k, x in rep['specs']]
+        # the model reads a non-ASCII character right after a line-initial `namespace` as a word character
+        if re.search(r'(?m)^namespace[^\x00-\x7f]', t):
+            ck.stat('fe.stdin.non_ascii_after_keyword_not_judged')
+            continue
+        if real == model:
+            ck.agree('fe.stdin')
+            ck.hist('fe.stdin.parts', len(real))
+        else:
+            ck.disagree('fe.stdin', {'text': t}, real, model)
 
 
 # ------------------------------------------------------------------------------------------------ replay
